@@ -154,28 +154,52 @@ def run_norm(case):
 
 
 def run_eos(case):
+    r = _run_eos(case, None, False)
+    # naming / nesting configurations: a grammar that already uses the name of the fresh
+    # start symbol, and EOS wrapping applied twice with different end symbols
+    for ren, nested in (({"S": "<START>", "A": "<START>@1"}, False), ({"S": "A", "A": "<START>"}, False), (None, True)):
+        r2 = _run_eos(case, ren, nested)
+        r["evals"] += r2["evals"]
+        r["fails"] += r2["fails"]
+        r["counters"]["executions"] += r2["counters"]["executions"]
+    return r
+
+
+def _run_eos(case, ren, nested):
     p = cfgp()
     rules = case_rules(case)
     V = case_terms(case)
     table = enum_derivs(rules, "S", V, Poly.D - 1)  # the wrapper rule S' -> S EOS has weight one (degree 0)
     inp0 = {"rules": case["rules"]}
+    if ren:
+        inp0["rename"] = short(ren)
+    if nested:
+        inp0["nested"] = "add_EOS(add_EOS(g, '#'), '$')"
     fails = []
     evals = 0
-    g = gram.build(rules, Poly, gram.poly_weights(len(rules)), V=V)
+    g = gram.build(rules, Poly, gram.poly_weights(len(rules)), V=V, rename=ren)
     before = (list(g.rules), set(g.V), g.S)
-    new = _call(add_EOS, g)
+    if nested:
+        new = _call(lambda: add_EOS(add_EOS(g, "#"), "$"))
+        ends = ("#", "$")
+    else:
+        new = _call(add_EOS, g)
+        ends = (EOS,)
     if isinstance(new, str):
-        return {"evals": 1, "nontrivial": 0, "fails": [_fail("add_EOS: construct", inp0, new, "grammar")], "counters": {}}
+        return {"evals": 1, "nontrivial": 0, "fails": [_fail("add_EOS: construct", inp0, new, "grammar")], "counters": {"executions": 1}}
     if (list(g.rules), set(g.V), g.S) != before:
         fails.append(_fail("add_EOS leaves its argument unchanged", inp0, (g.rules, g.V), before))
-    if set(new.V) != set(V) | {EOS}:
-        fails.append(_fail("add_EOS: vocabulary is V + EOS", inp0, new.V, set(V) | {EOS}))
+    if set(new.V) != set(V) | set(ends):
+        fails.append(_fail("add_EOS: vocabulary is V + EOS", inp0, new.V, set(V) | set(ends)))
     nrules = rules_of(new)
-    maxlen = (p["maxlen"] if len(V) <= 2 else 2)
+    maxlen = (p["maxlen"] if len(V) <= 2 else 2) + (1 if nested else 0)
+    if nested and len(V) + 2 > 4:
+        maxlen = 3
     D = Poly.D
-    for y in strings_upto(sorted(V) + [EOS], maxlen):
-        if len(y) >= 1 and y[-1] == EOS and EOS not in y[:-1]:
-            want = table.get(y[:-1], Poly.zero)
+    k = len(ends)
+    for y in strings_upto(sorted(V) + list(ends), maxlen):
+        if len(y) >= k and tuple(y[-k:]) == tuple(ends) and not any(e in y[:-k] for e in ends):
+            want = table.get(y[:-k], Poly.zero)
         else:
             want = Poly.zero
         # compare modulo degree D-1 (input derivations of <= D-1 rule uses)
@@ -185,12 +209,13 @@ def run_eos(case):
             have = have.degree_part(lambda m: len(m) <= D - 1)
         if not (isinstance(have, Poly) and have == want):
             fails.append(_fail("add_EOS(G)(y) == G(x) iff y == x.EOS else zero (reference evaluation)", dict(inp0, y=list(y)), have, want))
-        have = _call(new, y)
-        evals += 1
-        if isinstance(have, Poly):
-            have = have.degree_part(lambda m: len(m) <= D - 1)
-        if not (isinstance(have, Poly) and have == want):
-            fails.append(_fail("add_EOS(G)(y) == G(x) iff y == x.EOS else zero", dict(inp0, y=list(y)), have, want))
+        if not nested and not ren:
+            have = _call(new, y)
+            evals += 1
+            if isinstance(have, Poly):
+                have = have.degree_part(lambda m: len(m) <= D - 1)
+            if not (isinstance(have, Poly) and have == want):
+                fails.append(_fail("add_EOS(G)(y) == G(x) iff y == x.EOS else zero", dict(inp0, y=list(y)), have, want))
     nontriv = any(w != Poly.zero and len(x) < maxlen for x, w in table.items())
     return {"evals": evals, "nontrivial": int(nontriv), "fails": fails, "counters": {"executions": evals}}
 
